@@ -15,7 +15,7 @@ CONSTANTS
   MaxFaults = 2
   Concurrent = TRUE
   WithRejects = FALSE
-  ExportOneIn = 1
+  ExportOneIn = 20
   RecoveryCrashes = FALSE
   Batch = FALSE
 INVARIANTS NoViolation CacheCounterExact ChunksAbut DurableIsPrefix Export 
